@@ -103,12 +103,24 @@ def canonicalise(project):
         # a reference local whose binding sites are now shared between itself and a new
         # name (inlining a helper renames its colliding locals): merge them again
         merged = {}
-        for c in list(new):
-            for r in entry['order']:
-                if r in cur and r not in merged.values() and \
-                        sorted(cur[r] + cur[c]) == sorted(tuple(ref[r])) and cur[c]:
+        from collections import Counter
+        for r in entry['order']:
+            if r not in cur:
+                continue
+            lack = Counter(ref[r]) - Counter(cur[r])
+            if not lack or Counter(cur[r]) - Counter(ref[r]):
+                continue
+            group = []
+            for c in new:
+                if c in merged or not cur[c]:
+                    continue
+                cc = Counter(cur[c])
+                if not (cc - lack):
+                    group.append(c)
+                    lack = lack - cc
+            if group and not lack:
+                for c in group:
                     merged[c] = r
-                    break
         if merged:
             for n in ast.walk(fi.node):
                 if isinstance(n, ast.Name) and n.id in merged:
